@@ -1269,7 +1269,19 @@ func ruleTrimOneEOL(c *core.Ctx) {
 		if probe == nil {
 			core.Undecided("probe buffer not found")
 		}
-		isProbeAt := func(e ast.Expr, back int64) bool {
+		var isProbeAt func(e ast.Expr, back int64) bool
+		isProbeAt = func(e ast.Expr, back int64) bool {
+			if id, isID := ast.Unparen(e).(*ast.Ident); isID {
+				// a local defined once as probe[n-k]
+				if obj := info.ObjectOf(id); obj != nil {
+					if ds := core.AssignsTo(info, fn.Decl, obj); len(ds) == 1 {
+						if as, ok := ds[0].(*ast.AssignStmt); ok && len(as.Lhs) == 1 && len(as.Rhs) == 1 {
+							return isProbeAt(as.Rhs[0], back)
+						}
+					}
+				}
+				return false
+			}
 			ix, ok := ast.Unparen(e).(*ast.IndexExpr)
 			if !ok || core.ObjOf(info, ix.X) != probe {
 				return false
